@@ -36,6 +36,15 @@ LEVEL_TEXT = (
     "by the cell/facet subset under one guard; (R4) F / invF are A X + b and "
     "invA (x - b). Numerical agreement on concrete (curved) meshes and the "
     "Newton inverse are not decided.")
+LEVEL_TEXT += (
+    " Added after the seeding phase: (R5) the Newton inverse of the "
+    "isoparametric map - step invDF(X)(x - F(X)) added to the iterate, "
+    "every sum / comparison / clipping bound dimensionally homogeneous "
+    "(the stopping test compares a dimensionless quantity with the "
+    "dimensionless tolerance), values returned only under the test and "
+    "exhaustion raises; convergence itself stays undecided. (R3) "
+    "isoparametric evaluators allocate (cells, points) for shared and "
+    "per-cell points, with and without subset (finding F26, fixed).")
 LEVEL_NOTE = (
     "Trusted: numpy einsum/tile/empty semantics. Not decided: Newton "
     "iteration of the isoparametric inverse, curved second-order meshes, "
